@@ -1,4 +1,4 @@
-/- C06 model driver executable: see Driver.lean for the protocol. -/
-import ApiFu.C06.Driver
+/- C06 model driver executable: see Driver.lean (token-level ops) and DriverText.lean (text-level ops). -/
+import ApiFu.C06.DriverText
 
-def main : IO Unit := ApiFu.lineLoopPure ApiFu.C06.Driver.handle
+def main : IO Unit := ApiFu.lineLoopPure ApiFu.C06.Driver.handleText
